@@ -71,6 +71,32 @@ def case_area(ctx, cfg):
         if e is not None or np.shape(a) != (len(polys),) or not np.allclose(a, want_area, atol=1e-9):
             ctx.fail(f"area:collection:{'first' if rep == 0 else 'second'}-read", "area", {"polygon": name, "embedding": emb}, want_area, e if e is not None else a)
             return
+    # history: measures are read, then the polygon is mapped by an affine map that is NOT area preserving (and by a
+    # translation given as a point): the image answers for itself (area times |det| of the linear part in the plane,
+    # centroid mapped), the original still answers as before
+    if emb == "2d":
+        P0 = G.Polygon(*[P(G, v) for v in polys[0]])
+        _ = ctx.call(lambda: (P0.area, P0.centroid))
+        maps = [
+            ("scaling(2,3)", G.scaling(2, 3), lambda x, y: (2 * x, 3 * y), 6),
+            ("shear+stretch", G.Transformation(np.array([[2.0, 1, 0], [0, 1, 0], [0, 0, 1]])), lambda x, y: (2 * x + y, y), 2),
+            ("affine", G.Transformation(np.array([[1.0, 2, 3], [-1, 1, -2], [0, 0, 1]])), lambda x, y: (x + 2 * y + 3, -x + y - 2), 3),
+            ("translation-by-point", None, lambda x, y: (x + 3, y - 2), 1),
+        ]
+        for label, t, f, det in maps:
+            Pd, e = ctx.call(lambda: (t * P0) if t is not None else (P0 + G.Point(3, -2)))
+            a, e2 = ctx.call(lambda: Pd.area) if e is None else (None, e)
+            c, e3 = ctx.call(lambda: Pd.centroid) if e2 is None else (None, e2)
+            ctx.trace(2)
+            ctx.state((name, emb, "after-measures", label))
+            wc = [float(v) for v in f(cx, cy)] + [1.0]
+            if e3 is not None or not num_eq(a, float(A2) * det, 1e-9, 1e-9) or not proj_eq(c.array, np.array(wc), 1e-9):
+                ctx.fail(f"area-centroid:after-measures-then-{label}", "area / centroid of the image", {"polygon": name, "map": label}, {"area": float(A2) * det, "centroid": wc}, e3 if e3 is not None else {"area": a, "centroid": c.array})
+                return
+        a, e = ctx.call(lambda: P0.area)
+        if e is not None or not num_eq(a, want_area, 1e-9, 1e-9):
+            ctx.fail("area:original-after-derivation", "area", {"polygon": name}, want_area, e if e is not None else a)
+            return
     # isometric images have the same area
     if emb != "2d":
         for g in ("rot345", "trans", "swap"):
